@@ -199,6 +199,13 @@ def render_simple_cfg(RG, eps='ε', rng=None, opts=None):
     if opts.get('comments'):
         lines.insert(1, '% a comment')
         lines.insert(0, '%% language = something')
+    if opts.get('declare_epsilon'):
+        # the simple format lets a grammar file name its own epsilon symbol
+        decl = 'epsilon = %s' % eps
+        if rng is not None and rng.random() < 0.5:
+            lines.append(decl)
+        else:
+            lines.insert(0, decl)
     return '\n'.join(lines) + '\n'
 
 
